@@ -138,6 +138,11 @@ func judge(c Case, w *vkit.W) {
 			out("Sprint", fmt.Sprint(orig), ext)
 			// the same verb reaches the value inside containers and through the other print functions
 			out("Sprintf(%+v)", fmt.Sprintf("%+v", orig), ext)
+			// a width no larger than the text asks for no padding under any reading of the verbs
+			out("Sprintf(%10v)", fmt.Sprintf("%10v", orig), ext)
+			out("Sprintf(%1s)", fmt.Sprintf("%1s", orig), ext)
+			out("Sprintf(%-10v)", fmt.Sprintf("%-10v", orig), ext)
+			out("Sprintf(%8b)", fmt.Sprintf("%8b", orig), ref.DateText(c.Y, c.M, c.D, true))
 			out("Sprintln", fmt.Sprintln(orig), ext+"\n")
 			out("Sprintf(%v) of a slice", fmt.Sprintf("%v", []date.Date{orig, orig}), "["+ext+" "+ext+"]")
 			out("Sprintf(%v) of a struct", fmt.Sprintf("%v", struct{ D date.Date }{orig}), "{"+ext+"}")
